@@ -392,7 +392,7 @@ func (e *env15) runVector(v vec15, inst int, seed int64) error {
 			e.res.count("refusals_confirmed")
 		}
 	}
-	if len(e.res.Samples) < 8 && (inst+len(e.res.Samples))%3 == 0 {
+	if e.res.Evaluations%97 == 5 {
 		e.res.sample(replay, 8)
 	}
 	// housekeeping: a unit that was touched, or created, is not used again
@@ -494,7 +494,7 @@ func cmdC15(args []string) {
 		ctl.Item{"tcp-peer": map[string]any{"address": fmt.Sprintf("127.0.0.1:%d", port)}},
 	)
 	e := &env15{d: d, m: m, res: res, k1: k1, k2: k2, cur: map[string]string{}, to: 20 * time.Second, allUnits: map[string]bool{}, distinct: map[string]bool{}}
-	nGhost := 40 * *inst
+	nGhost := 130 * *inst
 	for i := 0; i < nGhost; i++ {
 		id := fmt.Sprintf("ghost%03d", i)
 		if err := seedGhostUnit(d.UnitsDir(), id); err != nil {
@@ -549,6 +549,12 @@ func cmdC15(args []string) {
 		for _, v := range vecs {
 			if !d.Alive() {
 				res.inconclusive("daemon died: %v %s", d.ExitErr(), trunc(d.LogTail(800), 800))
+
+				return
+			}
+			if res.Counters["violations"] >= 40 {
+				res.note("stopped after %d violations", res.Counters["violations"])
+				res.Distinct = len(e.distinct)
 
 				return
 			}
